@@ -10,6 +10,8 @@
 //!   enc <ty> <val> ;; ok bytes=<hex> slow=<hex> mem=<hex> trivE=<0|1> trivD=<0|1> memEq=<0|1> abi <ty>
 //!   dec <canon|trail|badbool|badtag> <ty> <hex> ;; ok <hex> | revert | fail:<state>
 //! The `TrivialEnum` known-finding stream uses the prefixes `enc-trivialenum` / `dec-trivialenum`.
+//! Every run starts with the TrivialEnum stream + corpus, then the systematic small-type enumeration
+//! (`tygen::systematic_types`, a few hundred shapes), then the random stream up to `--n` lines.
 //! Modes: `--mode c09` (default) general trees; `--mode c10` more aligned / nearly aligned types and invalid patterns.
 //! `--sw FILE [--abi]` just builds FILE as a library and prints what happened (probe).
 use std::collections::HashMap;
@@ -267,6 +269,7 @@ fn main() {
     let mut per_pkg = 120usize;
     let mut keep = false;
     let mut no_known = false;
+    let mut no_systematic = false;
     let mut i = 0;
     while i < a.extra.len() {
         match a.extra[i].as_str() {
@@ -275,6 +278,7 @@ fn main() {
             "--per-pkg" => { per_pkg = a.extra[i + 1].parse().unwrap(); i += 1; }
             "--keep" => keep = true,
             "--no-known" => no_known = true,
+            "--no-systematic" => no_systematic = true,
             _ => {}
         }
         i += 1;
@@ -343,6 +347,31 @@ fn main() {
         }
         let d = g.d.clone();
         flush(&d, &cases, &mut out, &mut total, &mut pkg_no, &mut errs);
+    }
+    // systematic small-type enumeration (same types on every run, values from the run's PRNG)
+    if !no_systematic {
+        let mut g = TyGen::new(&mut r);
+        let types = systematic_types(&mut g);
+        let d = g.d.clone();
+        let mut cases = vec![];
+        let mut n_types = 0;
+        for t in &types {
+            let v = g.val(t);
+            cases.push(enc_case(&d, t, &v, "enc"));
+            let e = encode(&d, t, &v);
+            cases.push(dec_case(&d, t, "canon", &e.bytes, "dec"));
+            if mode_c10 {
+                let what = if n_types % 2 == 0 { "badbool" } else { "badtag" };
+                if let Some(b) = flip_invalid(g.r, &e, what) { cases.push(dec_case(&d, t, what, &b, "dec")); }
+            }
+            n_types += 1;
+            if cases.len() >= per_pkg {
+                flush(&d, &cases, &mut out, &mut total, &mut pkg_no, &mut errs);
+                cases.clear();
+            }
+        }
+        flush(&d, &cases, &mut out, &mut total, &mut pkg_no, &mut errs);
+        eprintln!("sv_c09: systematic enumeration: {} types", n_types);
     }
     // random packages
     while total < a.n {
